@@ -32,7 +32,9 @@ class Ctx:
 
 
 class Gen:
-    def __init__(self, rng, features=None, size=1.0):
+    def __init__(self, rng, features=None, size=1.0, index=None, probe_only=False):
+        self.index = index           # position of this program in the run: drives the systematic operator table
+        self.probe_only = probe_only  # a program made of probe functions only (small: cheap to run under EVERY configuration)
         self.r = rng
         self.feat = set(ALL_FEATURES if features is None else features)
         self.size = size
@@ -1198,6 +1200,37 @@ class Gen:
         r.shuffle(out)
         return out[:6]
 
+    def table_probe_function(self, idx, slot):
+        """systematic operator coverage: entry `slot` of the table (binary/aug/compare operator) x (type class); a run with
+        24 programs x 4 such probes walks through the whole table, whatever the seed"""
+        r = self.r
+        table = [(k, op) for k in ("bin", "aug") for op in ["Add", "Sub", "Mul", "Div", "Mod", "BAnd", "BOr", "BXor"]] + \
+                [("cmp", op) for op in CMPS]
+        classes = ["u256", "i256", "usmall", "ssmall"]
+        kind, op = table[(slot // len(classes)) % len(table)]
+        cls = classes[slot % len(classes)]
+        t = {"u256": U256, "i256": ("int", 256, True),
+             "usmall": r.choice([("int", 8, False), ("int", 64, False), ("int", 128, False), ("int", 248, False)]),
+             "ssmall": r.choice([("int", 8, True), ("int", 40, True), ("int", 128, True)])}[cls]
+        lo, hi = int_bounds(t)
+        a0, a1 = E("var", t, name="a0", id=0), E("var", t, name="a1", id=1)
+        if kind == "cmp":
+            f = Fun(f"p{idx}", [("a0", t), ("a1", t)], BOOL, [S("return", e=E("cmp", BOOL, op=op, a=a0, b=a1))], True)
+        elif kind == "bin":
+            f = Fun(f"p{idx}", [("a0", t), ("a1", t)], t, [S("return", e=E("bin", t, op=op, a=a0, b=a1))], True)
+        else:
+            f = Fun(f"p{idx}", [("a0", t), ("a1", t)], t,
+                    [S("assign", base=("loc", "x", 2), path=[], e=a0, decl=t),
+                     S("aug", op=op, ty=t, base=("loc", "x", 2), path=[], e=a1),
+                     S("return", e=E("var", t, name="x", id=2))], True)
+        W = 2 ** 256
+        x = r.choice([1, 2, 3, 5, 7, 100, hi // 3])
+        special = [(x, 0), (0, x), (hi, 1), (hi, hi), (lo, 1), (lo, -1 if lo < 0 else hi), (x, x), (x, x + 1), (x + 1, x),
+                   (hi - 1, 1), (hi // 2 + 1, 2), (-x if lo < 0 else x, 3), (7, -2 if lo < 0 else 2), (-7 if lo < 0 else 7, 2)]
+        f.probe = t
+        f.probe_calls = [[min(max(a, lo), hi) % W, min(max(b, lo), hi) % W] for a, b in special]
+        return f
+
     def probe_function(self, idx):
         """a tiny external function exercising ONE operator at ONE type on its arguments (systematic operator coverage;
         the random programs cover the interplay)"""
@@ -1549,10 +1582,11 @@ class Gen:
         self.prog = p
         self.writes = {}
         self.comp_types = []
-        self.use_dec = "decimals" in self.feat and r.random() < 0.25
+        po = self.probe_only
+        self.use_dec = "decimals" in self.feat and (r.random() < 0.25 or po)
         self.bytesm_types = [("bytesm", r.choice([1, 4, 8, 20, 31, 32]))] if ("bytesm" in self.feat and r.random() < 0.25) else []
         self.flag_types = []
-        if "flags" in self.feat and r.random() < 0.3:
+        if "flags" in self.feat and (r.random() < 0.3 or po):
             self.flag_types = [("flag", "Fl0", r.choice([1, 2, 3, 8, 16]))]
             p.flags = list(self.flag_types)
         if "structs" in self.feat and r.random() < 0.5:
@@ -1610,14 +1644,14 @@ class Gen:
             for i in range(r.randrange(1, 3)):
                 t = r.choice(self.comp_types) if (self.comp_types and r.random() < 0.3) else self.prim_type()
                 p.tra.append((f"t{i}", t))
-        if "ctor" in self.feat and r.random() < 0.4:
+        if "ctor" in self.feat and r.random() < 0.4 and not po:
             prims = [name for name, t in p.sto if t[0] in PRIMS and not name.startswith("$")]
             r.shuffle(prims)
             p.imm = set(prims[:r.randrange(0, 3)])
             want_ctor = True
         else:
             want_ctor = False
-        self.use_ext = "extcalls" in self.feat and r.random() < 0.3
+        self.use_ext = "extcalls" in self.feat and r.random() < 0.3 and not po
         if self.use_ext:
             p.uses_ext = True
             self.hid = len(p.sto)
@@ -1626,31 +1660,41 @@ class Gen:
             p.events.append(("$Called", [("sender", ADDR), ("x", U256)]))
             if ("darr", U256, 4) not in self.comp_types and "dynarrays" in self.feat and r.random() < 0.5:
                 self.comp_types.append(("darr", U256, 4))
-        nint = r.randrange(0, 4) if "internal" in self.feat else 0
+        nint = r.randrange(0, 4) if ("internal" in self.feat and not po) else 0
         for i in range(nint):
             f = self.function(i, False)
             p.ints.append(f)
             self.compute_writes(i, f)
-        for i in range(r.randrange(1, 4)):
+        for i in range(0 if po else r.randrange(1, 4)):
             p.exts.append(self.function(i, True))
         if want_ctor:
             p.ctor = self.ctor_function()
-        if "probes" in self.feat:
-            for _ in range(2):
+        if "probes" in self.feat or po:
+            m = 2 if po else 1
+            for _ in range(2 * m):
                 p.exts.append(self.probe_function(len(p.exts)))
-            if "bytes" in self.feat and (self.bytes_types or r.random() < 0.3):
-                p.exts.append(self.bytes_probe_function(len(p.exts)))
-            p.exts.append(self.narrow_probe_function(len(p.exts)))
-            p.exts.append(self.constfold_probe_function(len(p.exts)))
-            fp = self.feature_probe_function(len(p.exts))
-            if fp is not None:
-                p.exts.append(fp)
+            if self.index is not None:
+                nt = self.TABLE_PER_PROBE_PROGRAM if po else 4
+                for k in range(nt):
+                    p.exts.append(self.table_probe_function(len(p.exts), self.index * nt + k))
+            if "bytes" in self.feat and (self.bytes_types or r.random() < 0.3 or po):
+                for _ in range(m):
+                    p.exts.append(self.bytes_probe_function(len(p.exts)))
+            for _ in range(m):
+                p.exts.append(self.narrow_probe_function(len(p.exts)))
+                p.exts.append(self.constfold_probe_function(len(p.exts)))
+            for _ in range(3 if po else 1):
+                fp = self.feature_probe_function(len(p.exts))
+                if fp is not None:
+                    p.exts.append(fp)
             if self.flag_types:
                 for _ in range(2):
                     p.exts.append(self.feature_probe_function(len(p.exts), force="flag"))
             if self.use_dec:
                 p.exts.append(self.feature_probe_function(len(p.exts), force="dec"))
         return p
+
+    TABLE_PER_PROBE_PROGRAM = 15
 
     # ---------------------------------------------------------------- calls
     def arg_word(self, t):
@@ -1742,10 +1786,14 @@ class Gen:
             if getattr(f, "probe", None) is not None:
                 pairs = f.probe_calls if getattr(f, "probe_calls", None) else self.probe_args(f.probe)
                 for pair in pairs:
-                    out.insert(self.r.randrange(len(out) + 1), Call(i, list(pair)))
+                    c = Call(i, list(pair))
+                    c.probe = True
+                    out.insert(self.r.randrange(len(out) + 1), c)
                 if "value" in self.feat and self.r.random() < 0.5 and pairs:
                     out.insert(self.r.randrange(len(out) + 1), Call(i, list(pairs[0]), DEPLOYER, self.r.choice([2, 4, 1, 2 ** 32])))
             if getattr(f, "bprobe", None) is not None:
                 for args in self.bytes_probe_calls(f):
-                    out.insert(self.r.randrange(len(out) + 1), Call(i, args))
+                    c = Call(i, args)
+                    c.probe = True
+                    out.insert(self.r.randrange(len(out) + 1), c)
         return out
